@@ -80,8 +80,8 @@ PROPS = {
                  reg("tw2", 4000, 25, 200000, 200)],
                 extra_assumptions=[TW_NOTE,
                     "engine tw2: two typed-world policies go through interleaved histories in one process, then each history alone; reports, outcome tables and oracle verdicts must be identical; definitions that are policy-independent functions are shared by both policies"]),
-    "C15": spec([reg("C15", 60000, 45, 3000000, 780)],
-                level="fault_enumeration"),
+    "C15": spec([reg("C15", 60000, 45, 3000000, 780), tw(6000, 20, 300000, 150)],
+                level="fault_enumeration", extra_assumptions=[TW_NOTE]),
     "C16": {
         "engines": [{"binary": "yosched.tsan", "target": "build/yosched.tsan",
                      "name": "sched",
